@@ -5,6 +5,7 @@ import (
 	"fmt"
 	"io"
 	"math"
+	"os"
 	"os/exec"
 	"strconv"
 	"strings"
@@ -50,7 +51,11 @@ func NewSolver(kind string, store *TermStore, timeoutMs int) (*Solver, error) {
 		cmd = exec.Command("z3-new", "-in")
 	case "cvc5":
 		// address-space limit: a query that blows up ends the process (=> unknown) instead of the machine
-		cmd = exec.Command("prlimit", "--as=2684354560", "cvc5", "--incremental", "--fp-exp", fmt.Sprintf("--tlimit-per=%d", timeoutMs))
+		as := "2684354560"
+		if v := os.Getenv("VERIF_FP_AS"); v != "" {
+			as = v
+		}
+		cmd = exec.Command("prlimit", "--as="+as, "cvc5", "--incremental", "--fp-exp", fmt.Sprintf("--tlimit-per=%d", timeoutMs))
 	default:
 		return nil, fmt.Errorf("unknown solver %q", kind)
 	}
